@@ -14,6 +14,16 @@ pub fn snapshot(app: &App) -> Snap {
     app.storage().range(None, None, Order::Ascending).collect()
 }
 
+/// the same for any storage (Apps built with custom modules have other types)
+pub fn snap_storage(s: &dyn Storage) -> Snap {
+    s.range(None, None, Order::Ascending).collect()
+}
+pub fn check_unchanged_s(label: &str, s: &dyn Storage, before: &Snap) -> bool {
+    let now = snap_storage(s);
+    let same = &now == before;
+    hx::check_native(label, same, || snap_diff(before, &now))
+}
+
 pub fn snap_diff(a: &Snap, b: &Snap) -> String {
     let mut out = vec![];
     let am: std::collections::BTreeMap<_, _> = a.iter().cloned().collect();
